@@ -141,6 +141,16 @@ func compareWorlds(a, b *World) {
 			case "tag":
 				return "tag->" + m.tags[d]
 			}
+			if kind == "refs" && m.respLost[d] {
+				return "unsure"
+			}
+			if kind == "refs" {
+				for ad, a := range m.mans {
+					if a.view.subject == d && m.causeOf(ad) != "" {
+						return "unsure"
+					}
+				}
+			}
 			// listings: comparable only when the two models hold the same manifests and tags, all of them certain
 			var parts []string
 			for md, x := range m.mans {
